@@ -2543,21 +2543,27 @@ class Binop(Elemwise):
             columns = determine_column_projection(self, parent, dependents)
             columns = _convert_to_list(columns)
             columns = [col for col in self.columns if col in columns]
+            # each operand keeps the requested columns it really has: the operands
+            # of an operation that aligns on labels need not have the same columns
+            if isinstance(self.left, Expr) and self.left.ndim > 1:
+                left_columns = [col for col in self.left.columns if col in columns]
+            if isinstance(self.right, Expr) and self.right.ndim > 1:
+                right_columns = [col for col in self.right.columns if col in columns]
             if (
                 isinstance(self.left, Expr)
                 and self.left.ndim > 1
-                and self.left.columns != columns
+                and self.left.columns != left_columns
             ):
-                left = self.left[columns]  # TODO: filter just the correct columns
+                left = self.left[left_columns]
                 changed = True
             else:
                 left = self.left
             if (
                 isinstance(self.right, Expr)
                 and self.right.ndim > 1
-                and self.right.columns != columns
+                and self.right.columns != right_columns
             ):
-                right = self.right[columns]  # TODO: filter just the correct columns
+                right = self.right[right_columns]
                 changed = True
             else:
                 right = self.right
